@@ -1,7 +1,7 @@
 (** Pinned statements of the C15 property theorems: compiled on every check, so a theorem cannot be
     weakened silently. *)
 From Coq Require Import Sorting.Permutation.
-From V Require Import Base.Util Gql.Ast C15.Model C15.Spec C15.Proofs C15.Proofs2 C15.CheckBridge C15.Corr C15.Properties.
+From V Require Import Base.Util Gql.Ast C15.Model C15.Spec C15.Proofs C15.Proofs2 C15.Reify C15.CheckBridge C15.CheckSim C15.CheckSim2 C15.CheckRespects C15.Corr C15.Properties.
 
 Check (C15_routes_agree : forall st meta M D,
   model_ok M = true ->
@@ -63,8 +63,8 @@ Check (C15_schema_equiv_b_sound : forall vis a b, schema_equiv_b vis a b = true 
 Print Assumptions C15_schema_equiv_b_sound.
 Check (C15_doc_equiv_b_sound : forall D D0, doc_equiv_b D D0 = true -> doc_equiv D D0).
 Print Assumptions C15_doc_equiv_b_sound.
-Check (C15_certified_case : forall st meta M D J out_sdl out_json,
-  agree (CRoutes false true st meta [] M D J out_sdl out_json) = true ->
+Check (C15_certified_case : forall st meta M D J out_sdl out_json docs,
+  agree (CRoutes false true st meta [] M D J out_sdl out_json docs) = true ->
   exists Sj, out_json = Ok Sj /\ schema_equiv_on (vis_of M) Sj out_sdl).
 Print Assumptions C15_certified_case.
 Check (C15_routes_agree_any_order : forall st meta M D types,
@@ -96,3 +96,34 @@ Check (C15_root_decision_agrees : forall st meta M D,
                        then [V.C03.Model.err0 V.C03.Model.SubscriptionMustHaveExactlyOneRootField (op_pos op)] else [])
                    ++ V.C03.Model.check_selection_set fuel D fm (op_vars op) [] root (op_sel op))).
 Print Assumptions C15_root_decision_agrees.
+Check (C15_reify_equiv : forall sc,
+  keys_match sc -> dir_keys_match sc ->
+  schema_equiv_on (fun _ => true) (ast_to_type_system (doc_of_schema sc)) sc).
+Print Assumptions C15_reify_equiv.
+Check (C15_check_value_respects_lookups : forall S1 S2 P vars,
+  (forall n, P n = true -> orel td_rel (V.C03.Model.get_type S1 n) (V.C03.Model.get_type S2 n)) ->
+  (forall n d p nm ds fs kw, P n = true -> V.C03.Model.get_type S1 n = Some (TDInput d p nm ds fs kw) -> inputs_ok P fs = true) ->
+  forall v t1 t2, ty_rel t1 t2 -> ty_ok P t1 = true ->
+    map V.C03.Model.e_msg (V.C03.Model.check_value S1 vars v t1) = map V.C03.Model.e_msg (V.C03.Model.check_value S2 vars v t2)).
+Print Assumptions C15_check_value_respects_lookups.
+Check (C15_check_respects_equiv_docs : forall S1 S2 P D,
+  schema_equiv_on P (ast_to_type_system S1) (ast_to_type_system S2) ->
+  doc_closed_b P S1 = true -> implements_nothing_b P S1 = true -> implements_nothing_b P S2 = true ->
+  P V.C03.Model.str_String = true ->
+  (forall o n, root_type (ast_to_type_system S1) o = Some n -> P n = true) ->
+  opdoc_ok P D = true ->
+  (V.C03.Model.check_operation_document S1 D = [] <-> V.C03.Model.check_operation_document S2 D = [])).
+Print Assumptions C15_check_respects_equiv_docs.
+Check (C15_check_respects_equiv : forall st meta M Dsdl,
+  model_ok M = true -> doc_equiv Dsdl (sdl_doc M) -> parsed_positions Dsdl ->
+  exists Sj, json_route (introspect st meta M) = Ok Sj /\
+    (sim_guard_b (vis_of M) Dsdl (doc_of_schema Sj) = true ->
+     forall D, opdoc_ok (vis_of M) D = true ->
+       (V.C03.Model.check_operation_document Dsdl D = [] <-> V.C03.Model.check_operation_document (doc_of_schema Sj) D = []))).
+Print Assumptions C15_check_respects_equiv.
+Check (C15_certified_check : forall st meta M D J out_sdl out_json docs,
+  agree (CRoutes false true st meta [] M D J out_sdl out_json docs) = true ->
+  exists Sj, out_json = Ok Sj /\
+    forall doc, opdoc_ok (vis_of M) doc = true ->
+      (V.C03.Model.check_operation_document D doc = [] <-> V.C03.Model.check_operation_document (doc_of_schema Sj) doc = [])).
+Print Assumptions C15_certified_check.
